@@ -1,0 +1,102 @@
+//go:build verif
+
+// Package verifhook provides named event points for the verification harness in /verif.
+//
+// With the "verif" build tag a handler can be installed in-process (SetHandler) or, for child
+// processes, configured from the environment:
+//
+//	VERIFHOOK="<point>@<n>=<action>[;<point>@<n>=<action>...]"
+//	    at the n-th hit of <point>: kill (SIGKILL to self), term (SIGTERM to self), exit:<code>, sleep:<ms>
+//	VERIFHOOK_LOG=<file>
+//	    every hit is appended as "<unix-nanoseconds> <point> <hit-count> <detail>\n"
+package verifhook
+
+import (
+	"fmt"
+	"os"
+	"strconv"
+	"strings"
+	"sync"
+	"syscall"
+	"time"
+)
+
+type rule struct {
+	point  string
+	n      int64
+	action string
+}
+
+var (
+	mu      sync.Mutex
+	counts  = map[string]int64{}
+	handler func(point string, n int64, detail string)
+	rules   []rule
+	logFile *os.File
+	once    sync.Once
+)
+
+// SetHandler installs an in-process handler called at every hit (nil removes it).
+func SetHandler(h func(point string, n int64, detail string)) {
+	mu.Lock()
+	handler = h
+	mu.Unlock()
+}
+
+func setup() {
+	for _, part := range strings.Split(os.Getenv("VERIFHOOK"), ";") {
+		part = strings.TrimSpace(part)
+		if part == "" {
+			continue
+		}
+		pa, action, ok := strings.Cut(part, "=")
+		point, ns, ok2 := strings.Cut(pa, "@")
+		n, err := strconv.ParseInt(ns, 10, 64)
+		if !ok || !ok2 || err != nil {
+			fmt.Fprintf(os.Stderr, "verifhook: bad rule %q\n", part)
+			continue
+		}
+		rules = append(rules, rule{point: point, n: n, action: action})
+	}
+	if p := os.Getenv("VERIFHOOK_LOG"); p != "" {
+		logFile, _ = os.OpenFile(p, os.O_CREATE|os.O_WRONLY|os.O_APPEND, 0o644)
+	}
+}
+
+// At marks a named point of the pipeline.
+func At(point string, detail ...string) {
+	once.Do(setup)
+	d := strings.Join(detail, " ")
+	mu.Lock()
+	counts[point]++
+	n := counts[point]
+	h := handler
+	if logFile != nil {
+		fmt.Fprintf(logFile, "%d %s %d %s\n", time.Now().UnixNano(), point, n, d)
+	}
+	var todo []string
+	for _, r := range rules {
+		if r.point == point && r.n == n {
+			todo = append(todo, r.action)
+		}
+	}
+	mu.Unlock()
+	if h != nil {
+		h(point, n, d)
+	}
+	for _, a := range todo {
+		switch {
+		case a == "kill":
+			syscall.Kill(os.Getpid(), syscall.SIGKILL)
+			select {} // never continue past the kill point
+		case a == "term":
+			syscall.Kill(os.Getpid(), syscall.SIGTERM)
+		case strings.HasPrefix(a, "exit:"):
+			c, _ := strconv.Atoi(a[5:])
+			os.Exit(c)
+		case strings.HasPrefix(a, "sleep:"):
+			ms, _ := strconv.Atoi(a[6:])
+			time.Sleep(time.Duration(ms) * time.Millisecond)
+		}
+	}
+}
